@@ -7,7 +7,15 @@
 (* actor messages travel through FIFO channels per (sender, receiver)      *)
 (* pair; messages to dead or not yet existing actors are dropped.          *)
 (*                                                                         *)
-(* A scenario scn = [targets, ext, preserve]:                              *)
+(* One MechanicActor serves a HISTORY of engine lifecycles (StartEngine … *)
+(* EngineStopped, then StartEngine again on the same actor: "the mechanic  *)
+(* might get reused later").  scn is the configuration of the current      *)
+(* lifecycle, plan the configurations still to come; observations (nd, ho, *)
+(* rcbox) and everything belonging to the Dispatcher / node actors of a    *)
+(* lifecycle start afresh with each lifecycle, the MechanicActor's own     *)
+(* fields (status, children, received_responses, externally_provisioned)   *)
+(* and the set of remote daemons in the convention are carried over.       *)
+(* A lifecycle configuration scn = [targets, ext, preserve]:               *)
 (*   targets   the --target-hosts list, <<[ip, port], ...>>; ip 0 is the   *)
 (*             coordinator's own host (127.0.0.1), ip 1..MaxIp are remote  *)
 (*             hosts with their own Rally daemon; position i-1 = node id   *)
@@ -16,7 +24,7 @@
 (***************************************************************************)
 EXTENDS Integers, Sequences, FiniteSets, TLC
 
-CONSTANTS Scenarios,   \* set of scenarios Init chooses from
+CONSTANTS Scenarios,   \* set of histories (non-empty sequences of lifecycle configurations) Init chooses from
           LeaveFix,    \* TRUE: repaired `not remoteAdded` branch of Dispatcher.receiveMsg_ActorSystemConventionUpdate
                        \*       (self.send(self.start_sender, BenchmarkFailure)); FALSE: as written (self.start_sender(...)
                        \*       raises TypeError twice, the update is poisoned, nobody is told)
@@ -28,7 +36,8 @@ CONSTANTS Scenarios,   \* set of scenarios Init chooses from
 MaxIp == 2
 RIps == 1..MaxIp
 
-VARIABLES scn,
+VARIABLES scn,                      \* configuration of the current lifecycle
+          plan,                     \* configurations of the lifecycles still to come on the same MechanicActor
           rc2m, m2d, d2m, sys2d,   \* channels race control -> M, M -> D, D -> M, convention notifier -> D
           d2n, n2m, m2n, n2d,      \* per entry h: D -> N[h], N[h] -> M, M -> N[h], N[h] -> D
           rcbox,                   \* message kinds received by race control, in order
@@ -48,8 +57,8 @@ VARIABLES scn,
           act                      \* last action (hidden by VIEW)
 
 chans == <<rc2m, m2d, d2m, sys2d, d2n, n2m, m2n, n2d>>
-vars == <<scn, rc2m, m2d, d2m, sys2d, d2n, n2m, m2n, n2d, rcbox, mtimers, mech, disp, na, nd, ho, env, act>>
-view == <<scn, rc2m, m2d, d2m, sys2d, d2n, n2m, m2n, n2d, rcbox, mtimers, mech, disp, na, nd, ho, env>>
+vars == <<scn, plan, rc2m, m2d, d2m, sys2d, d2n, n2m, m2n, n2d, rcbox, mtimers, mech, disp, na, nd, ho, env, act>>
+view == <<scn, plan, rc2m, m2d, d2m, sys2d, d2n, n2m, m2n, n2d, rcbox, mtimers, mech, disp, na, nd, ho, env>>
 
 -----------------------------------------------------------------------------
 ToSet(q) == {q[i] : i \in 1..Len(q)}
@@ -104,10 +113,10 @@ InitFor(s, up) ==
     /\ na = [h \in Hosts(s) |-> InitNa]
     /\ nd = [n \in NodeIds(s) |-> InitNd]
     /\ ho = [h \in Hosts(s) |-> 0]
-    /\ env = [up |-> up, left |-> {}, fault |-> "none", stopSent |-> FALSE, resets |-> 0, torn |-> FALSE, procs |-> 0]
+    /\ env = [up |-> up, left |-> {}, fault |-> "none", stopSent |-> FALSE, resets |-> 0, torn |-> FALSE, procs |-> 0, cyc |-> 1]
     /\ act = A("Init", 0, "")
 
-Init == \E s \in Scenarios : \E up \in SUBSET RemoteTargets(s) : InitFor(s, up)
+Init == \E hist \in Scenarios : \E up \in SUBSET RemoteTargets(hist[1]) : InitFor(hist[1], up) /\ plan = Tail(hist)
 
 -----------------------------------------------------------------------------
 Started == Has(rcbox, "EngineStarted")
@@ -148,11 +157,11 @@ MRecvStartEngine ==
        THEN /\ mech' = [mech EXCEPT !.ext = TRUE, !.status = "cluster_started", !.resp = 0]
             /\ rcbox' = Append(rcbox, "EngineStarted")
             /\ UNCHANGED <<disp, m2d>>
-       ELSE /\ mech' = [mech EXCEPT !.children = [i \in 1..NE(scn) |-> 0], !.status = "starting", !.resp = 0]
+       ELSE /\ mech' = [mech EXCEPT !.ext = FALSE, !.children = [i \in 1..NE(scn) |-> 0], !.status = "starting", !.resp = 0]
             /\ disp' = [disp EXCEPT !.exists = TRUE, !.alive = TRUE]
             /\ m2d' = Append(m2d, Msg("StartEngine"))
             /\ rcbox' = rcbox
-    /\ UNCHANGED <<scn, d2m, sys2d, d2n, n2m, m2n, n2d, mtimers, na, nd, ho, env>>
+    /\ UNCHANGED <<scn, plan, d2m, sys2d, d2n, n2m, m2n, n2d, mtimers, na, nd, ho, env>>
     /\ act' = A("MRecvStartEngine", 0, "")
 
 (* children as a length-limited FIFO: insert(0, sender); pop() *)
@@ -176,7 +185,7 @@ MRecvNodesStarted(h) ==
             /\ mech' = [mech EXCEPT !.children = ch]
             /\ rcbox' = rcbox
             /\ m2n' = IF NAlive(h) THEN [m2n EXCEPT ![h] = Append(@, Msg("BenchmarkFailure"))] ELSE m2n
-    /\ UNCHANGED <<scn, rc2m, m2d, d2m, sys2d, d2n, n2d, mtimers, disp, na, nd, ho, env>>
+    /\ UNCHANGED <<scn, plan, rc2m, m2d, d2m, sys2d, d2n, n2d, mtimers, disp, na, nd, ho, env>>
     /\ act' = A("MRecvNodesStarted", h, "")
 
 (* reset_relative_time(): ResetRelativeTime(0) to all children *)
@@ -188,7 +197,7 @@ MRecvReset ==
     /\ rc2m' = Tail(rc2m)
     /\ IF Head(rc2m).a > 0 THEN mtimers' = mtimers + 1 /\ m2n' = m2n
                            ELSE mtimers' = mtimers /\ m2n' = ResetAll
-    /\ UNCHANGED <<scn, m2d, d2m, sys2d, d2n, n2m, n2d, rcbox, mech, disp, na, nd, ho, env>>
+    /\ UNCHANGED <<scn, plan, m2d, d2m, sys2d, d2n, n2m, n2d, rcbox, mech, disp, na, nd, ho, env>>
     /\ act' = A("MRecvReset", Head(rc2m).a, "")
 
 (* receiveMsg_WakeupMessage *)
@@ -196,7 +205,7 @@ MWakeup ==
     /\ mech.alive /\ mtimers > 0
     /\ mtimers' = mtimers - 1
     /\ m2n' = ResetAll
-    /\ UNCHANGED <<scn, rc2m, m2d, d2m, sys2d, d2n, n2m, n2d, rcbox, mech, disp, na, nd, ho, env>>
+    /\ UNCHANGED <<scn, plan, rc2m, m2d, d2m, sys2d, d2n, n2m, n2d, rcbox, mech, disp, na, nd, ho, env>>
     /\ act' = A("MWakeup", 0, "")
 
 (* receiveMsg_BenchmarkFailure: forwarded to race control *)
@@ -204,14 +213,14 @@ MRecvFailureN(h) ==
     /\ mech.alive /\ n2m[h] # <<>> /\ Head(n2m[h]).k = "BenchmarkFailure"
     /\ n2m' = [n2m EXCEPT ![h] = Tail(@)]
     /\ rcbox' = Append(rcbox, "BenchmarkFailure")
-    /\ UNCHANGED <<scn, rc2m, m2d, d2m, sys2d, d2n, m2n, n2d, mtimers, mech, disp, na, nd, ho, env>>
+    /\ UNCHANGED <<scn, plan, rc2m, m2d, d2m, sys2d, d2n, m2n, n2d, mtimers, mech, disp, na, nd, ho, env>>
     /\ act' = A("MRecvFailureN", h, "")
 
 MRecvFailureD ==
     /\ mech.alive /\ d2m # <<>> /\ Head(d2m).k = "BenchmarkFailure"
     /\ d2m' = Tail(d2m)
     /\ rcbox' = Append(rcbox, "BenchmarkFailure")
-    /\ UNCHANGED <<scn, rc2m, m2d, sys2d, d2n, n2m, m2n, n2d, mtimers, mech, disp, na, nd, ho, env>>
+    /\ UNCHANGED <<scn, plan, rc2m, m2d, sys2d, d2n, n2m, m2n, n2d, mtimers, mech, disp, na, nd, ho, env>>
     /\ act' = A("MRecvFailureD", 0, "")
 
 (* on_all_nodes_stopped(): EngineStopped, ActorExitRequest to every child, children = [] *)
@@ -229,7 +238,7 @@ MRecvStopEngine ==
             /\ rcbox' = rcbox
             /\ m2n' = [h \in Hosts(scn) |-> IF Has(mech.children, h) /\ NAlive(h) THEN Append(m2n[h], Msg("StopNodes")) ELSE m2n[h]]
             /\ mech' = [mech EXCEPT !.status = "cluster_stopping"]
-    /\ UNCHANGED <<scn, m2d, d2m, sys2d, d2n, n2m, n2d, mtimers, disp, na, nd, ho, env>>
+    /\ UNCHANGED <<scn, plan, m2d, d2m, sys2d, d2n, n2m, n2d, mtimers, disp, na, nd, ho, env>>
     /\ act' = A("MRecvStopEngine", 0, "")
 
 (* receiveMsg_NodesStopped -> transition_when_all_children_responded(…, "cluster_stopping", "cluster_stopped", on_all_nodes_stopped) *)
@@ -247,7 +256,7 @@ MRecvNodesStopped(h) ==
        ELSE /\ mech' = mech
             /\ rcbox' = rcbox
             /\ m2n' = IF NAlive(h) THEN [m2n EXCEPT ![h] = Append(@, Msg("BenchmarkFailure"))] ELSE m2n
-    /\ UNCHANGED <<scn, rc2m, m2d, d2m, sys2d, d2n, n2d, mtimers, disp, na, nd, ho, env>>
+    /\ UNCHANGED <<scn, plan, rc2m, m2d, d2m, sys2d, d2n, n2d, mtimers, disp, na, nd, ho, env>>
     /\ act' = A("MRecvNodesStopped", h, "")
 
 (* ActorExitRequest: M dies, its child D is asked to exit, everything still addressed to M is lost *)
@@ -256,7 +265,7 @@ MRecvExit ==
     /\ mech' = [mech EXCEPT !.alive = FALSE]
     /\ rc2m' = <<>> /\ d2m' = <<>> /\ n2m' = NoChan(scn) /\ mtimers' = 0
     /\ m2d' = ToD(m2d, Msg("Exit"))
-    /\ UNCHANGED <<scn, sys2d, d2n, m2n, n2d, rcbox, disp, na, nd, ho, env>>
+    /\ UNCHANGED <<scn, plan, sys2d, d2n, m2n, n2d, rcbox, disp, na, nd, ho, env>>
     /\ act' = A("MRecvExit", 0, "")
 
 -----------------------------------------------------------------------------
@@ -285,7 +294,7 @@ DRecvStartEngine ==
              ELSE /\ disp' = [disp EXCEPT !.pending = <<>>, !.remotes = rem]
                   /\ sys2d' = sys2d
                   /\ d2n' = SendPending(locals, nat)
-    /\ UNCHANGED <<scn, rc2m, d2m, n2m, m2n, n2d, rcbox, mtimers, mech, nd, ho, env>>
+    /\ UNCHANGED <<scn, plan, rc2m, d2m, n2m, m2n, n2d, rcbox, mtimers, mech, nd, ho, env>>
     /\ act' = A("DRecvStartEngine", 0, "")
 
 (* receiveMsg_ActorSystemConventionUpdate *)
@@ -307,14 +316,14 @@ DRecvConv(fix) ==
                        /\ d2n' = d2n
        ELSE /\ d2m' = IF fix THEN ToM(d2m, Msg("BenchmarkFailure")) ELSE d2m     \* as written: TypeError, retried, poisoned
             /\ UNCHANGED <<na, disp, d2n>>
-    /\ UNCHANGED <<scn, rc2m, m2d, n2m, m2n, n2d, rcbox, mtimers, mech, nd, ho, env>>
+    /\ UNCHANGED <<scn, plan, rc2m, m2d, n2m, m2n, n2d, rcbox, mtimers, mech, nd, ho, env>>
     /\ act' = A("DRecvConv", Head(sys2d).a, IF Head(sys2d).b THEN "T" ELSE "F")
 
 (* ChildActorExited: receiveUnrecognizedMessage only logs *)
 DRecvChildExited(h) ==
     /\ DAlive /\ n2d[h] # <<>> /\ Head(n2d[h]).k = "ChildActorExited"
     /\ n2d' = [n2d EXCEPT ![h] = Tail(@)]
-    /\ UNCHANGED <<scn, rc2m, m2d, d2m, sys2d, d2n, n2m, m2n, rcbox, mtimers, mech, disp, na, nd, ho, env>>
+    /\ UNCHANGED <<scn, plan, rc2m, m2d, d2m, sys2d, d2n, n2m, m2n, rcbox, mtimers, mech, disp, na, nd, ho, env>>
     /\ act' = A("DRecvChildExited", h, "")
 
 (* ActorExitRequest: D dies, its children (the node actors) are asked to exit *)
@@ -323,7 +332,7 @@ DRecvExit ==
     /\ disp' = [disp EXCEPT !.alive = FALSE]
     /\ m2d' = <<>> /\ sys2d' = <<>> /\ n2d' = NoChan(scn)
     /\ d2n' = [h \in Hosts(scn) |-> IF NAlive(h) THEN Append(d2n[h], Msg("Exit")) ELSE d2n[h]]
-    /\ UNCHANGED <<scn, rc2m, d2m, n2m, m2n, rcbox, mtimers, mech, na, nd, ho, env>>
+    /\ UNCHANGED <<scn, plan, rc2m, d2m, n2m, m2n, rcbox, mtimers, mech, na, nd, ho, env>>
     /\ act' = A("DRecvExit", 0, "")
 
 -----------------------------------------------------------------------------
@@ -342,7 +351,7 @@ NRecvStartNodes(h, o) ==
                 IF HostOf(scn, n) = h /\ o # "create"
                 THEN [nd[n] EXCEPT !.starts = IF o = "ok" THEN @ + 1 ELSE @, !.inst = "present"]
                 ELSE nd[n]]
-    /\ UNCHANGED <<scn, rc2m, m2d, d2m, sys2d, m2n, n2d, rcbox, mtimers, mech, disp, ho>>
+    /\ UNCHANGED <<scn, plan, rc2m, m2d, d2m, sys2d, m2n, n2d, rcbox, mtimers, mech, disp, ho>>
     /\ act' = A("NRecvStartNodes", h, o)
 
 (* receiveUnrecognizedMessage, StopNodes *)
@@ -357,14 +366,14 @@ NRecvStopNodes(h) ==
        ELSE \* self.mechanic is None: AttributeError -> BenchmarkFailure to the sender
             /\ n2m' = [n2m EXCEPT ![h] = ToM(@, Msg("BenchmarkFailure"))]
             /\ UNCHANGED <<nd, ho, na>>
-    /\ UNCHANGED <<scn, rc2m, m2d, d2m, sys2d, d2n, n2d, rcbox, mtimers, mech, disp, env>>
+    /\ UNCHANGED <<scn, plan, rc2m, m2d, d2m, sys2d, d2n, n2d, rcbox, mtimers, mech, disp, env>>
     /\ act' = A("NRecvStopNodes", h, "")
 
 (* receiveUnrecognizedMessage, ResetRelativeTime: resets the metrics store's clock, nothing the protocol depends on *)
 NRecvReset(h) ==
     /\ NAlive(h) /\ m2n[h] # <<>> /\ Head(m2n[h]).k = "ResetRelativeTime"
     /\ m2n' = [m2n EXCEPT ![h] = Tail(@)]
-    /\ UNCHANGED <<scn, rc2m, m2d, d2m, sys2d, d2n, n2m, n2d, rcbox, mtimers, mech, disp, na, nd, ho, env>>
+    /\ UNCHANGED <<scn, plan, rc2m, m2d, d2m, sys2d, d2n, n2m, n2d, rcbox, mtimers, mech, disp, na, nd, ho, env>>
     /\ act' = A("NRecvReset", h, "")
 
 (* receiveMsg_BenchmarkFailure: sent back to the sender *)
@@ -372,7 +381,7 @@ NRecvFailure(h) ==
     /\ NAlive(h) /\ m2n[h] # <<>> /\ Head(m2n[h]).k = "BenchmarkFailure"
     /\ m2n' = [m2n EXCEPT ![h] = Tail(@)]
     /\ n2m' = [n2m EXCEPT ![h] = ToM(@, Msg("BenchmarkFailure"))]
-    /\ UNCHANGED <<scn, rc2m, m2d, d2m, sys2d, d2n, n2d, rcbox, mtimers, mech, disp, na, nd, ho, env>>
+    /\ UNCHANGED <<scn, plan, rc2m, m2d, d2m, sys2d, d2n, n2d, rcbox, mtimers, mech, disp, na, nd, ho, env>>
     /\ act' = A("NRecvFailure", h, "")
 
 (* ActorExitRequest (from M after EngineStopped, or from the dying parent D): stop the engine if still there, die *)
@@ -386,14 +395,14 @@ NRecvExit(h, src) ==
     /\ na' = [na EXCEPT ![h] = [StoppedNa(h) EXCEPT !.alive = FALSE]]
     /\ m2n' = [m2n EXCEPT ![h] = <<>>] /\ d2n' = [d2n EXCEPT ![h] = <<>>]
     /\ n2d' = [n2d EXCEPT ![h] = ToD(@, Msg("ChildActorExited"))]
-    /\ UNCHANGED <<scn, rc2m, m2d, d2m, sys2d, n2m, rcbox, mtimers, mech, disp, env>>
+    /\ UNCHANGED <<scn, plan, rc2m, m2d, d2m, sys2d, n2m, rcbox, mtimers, mech, disp, env>>
     /\ act' = A("NRecvExit", h, src)
 
 (* WakeupMessage: periodic flush of the metrics store (not refresh), re-armed; no effect on anything modelled. *)
 (* Only used by trace validation, not part of Next.                                                           *)
 NWakeup(h) ==
     /\ NAlive(h)
-    /\ UNCHANGED <<scn, rc2m, m2d, d2m, sys2d, d2n, n2m, m2n, n2d, rcbox, mtimers, mech, disp, na, nd, ho, env>>
+    /\ UNCHANGED <<scn, plan, rc2m, m2d, d2m, sys2d, d2n, n2m, m2n, n2d, rcbox, mtimers, mech, disp, na, nd, ho, env>>
     /\ act' = A("NWakeup", h, "")
 
 -----------------------------------------------------------------------------
@@ -404,7 +413,7 @@ RcStop ==
     /\ Started /\ ~Failed /\ ~env.stopSent /\ ~env.torn
     /\ rc2m' = ToM(rc2m, Msg("StopEngine"))
     /\ env' = [env EXCEPT !.stopSent = TRUE]
-    /\ UNCHANGED <<scn, m2d, d2m, sys2d, d2n, n2m, m2n, n2d, rcbox, mtimers, mech, disp, na, nd, ho>>
+    /\ UNCHANGED <<scn, plan, m2d, d2m, sys2d, d2n, n2m, m2n, n2d, rcbox, mtimers, mech, disp, na, nd, ho>>
     /\ act' = A("RcStop", 0, "")
 
 (* TaskFinished -> ResetRelativeTime(next_task_scheduled_in); k = 0: at once, k = 1: after a delay *)
@@ -413,16 +422,39 @@ RcReset(k) ==
     /\ k \in {0, 1}
     /\ rc2m' = ToM(rc2m, Reset(k))
     /\ env' = [env EXCEPT !.resets = @ + 1]
-    /\ UNCHANGED <<scn, m2d, d2m, sys2d, d2n, n2m, m2n, n2d, rcbox, mtimers, mech, disp, na, nd, ho>>
+    /\ UNCHANGED <<scn, plan, m2d, d2m, sys2d, d2n, n2m, m2n, n2d, rcbox, mtimers, mech, disp, na, nd, ho>>
     /\ act' = A("RcReset", k, "")
 
 (* after a failure or after EngineStopped the benchmark actor exits; thespian forwards the exit request to its child M *)
+(* (after EngineStopped only when no further lifecycle is planned: otherwise the mechanic is reused, RcRestart)          *)
 RcTeardown ==
-    /\ ~env.torn /\ (Failed \/ Stopped)
+    /\ ~env.torn /\ (Failed \/ (Stopped /\ plan = <<>>))
     /\ rc2m' = ToM(rc2m, Msg("Exit"))
     /\ env' = [env EXCEPT !.torn = TRUE]
-    /\ UNCHANGED <<scn, m2d, d2m, sys2d, d2n, n2m, m2n, n2d, rcbox, mtimers, mech, disp, na, nd, ho>>
+    /\ UNCHANGED <<scn, plan, m2d, d2m, sys2d, d2n, n2m, m2n, n2d, rcbox, mtimers, mech, disp, na, nd, ho>>
     /\ act' = A("RcTeardown", 0, "")
+
+(* everything that belongs to the current lifecycle is over: no message in flight, no wake-up of M pending, the node *)
+(* actors gone (old Dispatchers stay alive, idle, as children of M until M exits)                                    *)
+Drained == /\ rc2m = <<>> /\ m2d = <<>> /\ d2m = <<>> /\ sys2d = <<>> /\ mtimers = 0
+           /\ \A h \in Hosts(scn) : d2n[h] = <<>> /\ n2m[h] = <<>> /\ m2n[h] = <<>> /\ n2d[h] = <<>> /\ ~NAlive(h)
+
+(* the same MechanicActor is asked to start the next engine: a new StartEngine with the next configuration; whatever  *)
+(* M keeps in its fields is carried over, a new Dispatcher will be created, the observations start afresh             *)
+RcRestart ==
+    /\ plan # <<>> /\ Stopped /\ ~Failed /\ ~env.torn /\ mech.alive /\ Drained
+    /\ LET s == Head(plan) IN
+         /\ scn' = s /\ plan' = Tail(plan)
+         /\ rc2m' = <<Msg("StartEngine")>> /\ m2d' = <<>> /\ d2m' = <<>> /\ sys2d' = <<>>
+         /\ d2n' = NoChan(s) /\ n2m' = NoChan(s) /\ m2n' = NoChan(s) /\ n2d' = NoChan(s)
+         /\ rcbox' = <<>> /\ mtimers' = 0
+         /\ mech' = mech
+         /\ disp' = InitDisp
+         /\ na' = [h \in Hosts(s) |-> InitNa]
+         /\ nd' = [n \in NodeIds(s) |-> InitNd]
+         /\ ho' = [h \in Hosts(s) |-> 0]
+         /\ env' = [env EXCEPT !.left = {}, !.fault = "none", !.stopSent = FALSE, !.resets = 0, !.procs = 0, !.cyc = @ + 1]
+    /\ act' = A("RcRestart", 0, "")
 
 Listening == DAlive /\ disp.listening
 
@@ -431,7 +463,7 @@ RemoteJoins(ip) ==
     /\ ip \in RemoteTargets(scn) /\ ip \notin env.up /\ ip \notin env.left
     /\ env' = [env EXCEPT !.up = @ \cup {ip}]
     /\ sys2d' = IF Listening THEN Append(sys2d, Conv(ip, TRUE)) ELSE sys2d
-    /\ UNCHANGED <<scn, rc2m, m2d, d2m, d2n, n2m, m2n, n2d, rcbox, mtimers, mech, disp, na, nd, ho>>
+    /\ UNCHANGED <<scn, plan, rc2m, m2d, d2m, d2n, n2m, m2n, n2d, rcbox, mtimers, mech, disp, na, nd, ho>>
     /\ act' = A("RemoteJoins", ip, "")
 
 (* a remote daemon whose node actors already exist leaves while the Dispatcher still waits for other daemons: its actors *)
@@ -445,7 +477,7 @@ RemoteLeaves(ip) ==
     /\ d2n' = [h \in Hosts(scn) |-> IF IpOf(scn, h) = ip THEN <<>> ELSE d2n[h]]
     /\ m2n' = [h \in Hosts(scn) |-> IF IpOf(scn, h) = ip THEN <<>> ELSE m2n[h]]
     /\ n2d' = [h \in Hosts(scn) |-> IF IpOf(scn, h) = ip /\ NAlive(h) THEN Append(n2d[h], Msg("ChildActorExited")) ELSE n2d[h]]
-    /\ UNCHANGED <<scn, rc2m, m2d, d2m, n2m, rcbox, mtimers, mech, disp, nd, ho>>
+    /\ UNCHANGED <<scn, plan, rc2m, m2d, d2m, n2m, rcbox, mtimers, mech, disp, nd, ho>>
     /\ act' = A("RemoteLeaves", ip, "")
 
 (* the OS process of a started, not yet stopped node gets into condition c: "early" = it is gone before the engine is *)
@@ -456,7 +488,7 @@ NodeProcess(n, c) ==
     /\ NAlive(HostOf(scn, n)) /\ na[HostOf(scn, n)].running /\ nd[n].proc = "alive"
     /\ nd' = [nd EXCEPT ![n].proc = c]
     /\ env' = [env EXCEPT !.procs = @ + 1]
-    /\ UNCHANGED <<scn, rc2m, m2d, d2m, sys2d, d2n, n2m, m2n, n2d, rcbox, mtimers, mech, disp, na, ho>>
+    /\ UNCHANGED <<scn, plan, rc2m, m2d, d2m, sys2d, d2n, n2m, m2n, n2d, rcbox, mtimers, mech, disp, na, ho>>
     /\ act' = A("NodeProcess", n, c)
 
 -----------------------------------------------------------------------------
@@ -467,7 +499,7 @@ ActorStep == \/ MRecvStartEngine \/ MRecvReset \/ MWakeup \/ MRecvFailureD \/ MR
                                       \/ NRecvStartNodes(h, "ok") \/ NRecvStopNodes(h) \/ NRecvReset(h) \/ NRecvFailure(h)
                                       \/ NRecvExit(h, "M") \/ NRecvExit(h, "D")
 (* what the environment is assumed to do eventually: race control goes on, awaited daemons join *)
-EnvProgress == RcStop \/ RcTeardown \/ \E ip \in RIps : RemoteJoins(ip)
+EnvProgress == RcStop \/ RcTeardown \/ RcRestart \/ \E ip \in RIps : RemoteJoins(ip)
 Progress == ActorStep \/ EnvProgress
 FaultStep == \/ \E h \in Hosts(scn) : NRecvStartNodes(h, "create") \/ NRecvStartNodes(h, "launch")
              \/ \E ip \in RIps : RemoteLeaves(ip)
@@ -484,7 +516,7 @@ Next == \/ MRecvStartEngine \/ MRecvReset \/ MWakeup \/ MRecvFailureD \/ MRecvSt
         \/ \E h \in Hosts(scn) : NRecvReset(h)
         \/ \E h \in Hosts(scn) : NRecvFailure(h)
         \/ \E h \in Hosts(scn) : \E src \in {"M", "D"} : NRecvExit(h, src)
-        \/ RcStop \/ RcTeardown \/ \E k \in {0, 1} : RcReset(k)
+        \/ RcStop \/ RcTeardown \/ RcRestart \/ \E k \in {0, 1} : RcReset(k)
         \/ \E ip \in RIps : RemoteJoins(ip)
         \/ \E ip \in RIps : RemoteLeaves(ip)
         \/ \E n \in NodeIds(scn) : \E c \in {"early", "late", "stubborn"} : NodeProcess(n, c)
@@ -517,7 +549,8 @@ ChansEmpty == /\ rc2m = <<>> /\ m2d = <<>> /\ d2m = <<>> /\ sys2d = <<>> /\ mtim
               /\ \A h \in Hosts(scn) : d2n[h] = <<>> /\ n2m[h] = <<>> /\ m2n[h] = <<>> /\ n2d[h] = <<>>
 Awaited == {ip \in RemoteTargets(scn) : ip \notin env.up /\ ip \notin env.left}
 RcIdle == /\ ~(Started /\ ~Failed /\ ~env.stopSent /\ ~env.torn)
-          /\ ~(~env.torn /\ (Failed \/ Stopped))
+          /\ ~(~env.torn /\ (Failed \/ (Stopped /\ plan = <<>>)))
+          /\ ~(plan # <<>> /\ Stopped /\ ~Failed /\ ~env.torn /\ mech.alive /\ Drained)
 Quiescent == ChansEmpty /\ RcIdle /\ (Listening => Awaited = {})
 
 (* start-up never hangs: race control gets EngineStarted or BenchmarkFailure; after a fault it is BenchmarkFailure *)
@@ -542,7 +575,8 @@ TypeOK == /\ mech.resp \in 0..MaxHosts /\ Len(mech.children) <= MaxHosts /\ mtim
           /\ \A h \in Hosts(scn) : ho[h] \in 0..1
 
 (* liveness under weak fairness of the actors and the cooperating environment *)
-Answered == <>(Started \/ Failed)
+MaxCycles == 3
+Answered == \A c \in 1..MaxCycles : <>(env.cyc = c) => <>(env.cyc = c /\ (Started \/ Failed))
 FaultLeadsToFailure == [](env.fault # "none" => <>Failed)
 StopLeadsToStopped == [](env.stopSent => <>(Stopped \/ Failed))
 =============================================================================
